@@ -26,7 +26,7 @@ ASSUMPTIONS = ['base documents carry quote-free comments (own-line and trailing,
                'faults are placed between the writer\'s tokens, never inside a literal, name or type']
 KINDS = ['stray', 'del_struct', 'extra_struct', 'unterminated', 'no_type', 'unknown_setting', 'bad_index_type',
          'bad_operator', 'bad_action', 'bad_colour', 'garbage_end', 'garbage_start', 'truncate', 'literal_as_name',
-         'dup_settings', 'empty_block', 'dup_type_args', 'dup_name']
+         'dup_settings', 'empty_block', 'dup_type_args', 'dup_name', 'unicode_token']
 FLOORS = {'quick': {f'kind:{k}': 15 for k in KINDS}, 'thorough': {f'kind:{k}': 300 for k in KINDS}}
 STRAY = ['@', '%', ';', '=', '!', '~', '^', '&', '|', '?', '$', '@@', '=;', '\ufeff', '\ufeff\ufeff']
 SETTING_KINDS = {'column', 'index', 'enum_item', 'table_open', 'group_open', 'ref_short', 'ref_body', 'settings_cont'}
@@ -186,6 +186,26 @@ def fault(draw, lines, eol='\n'):
         a = j if j == 1 else j - 1
         dup = [Tok(x.text, x.cls, ' ') for x in toks[a:j + 1]]
         lines[i].toks = toks[:j + 1] + dup + toks[j + 1:]
+    elif kind == 'unicode_token':
+        # DBML syntax is ASCII: a digit of another script inside a number, or a full-width bracket / colon / comma / operator
+        # in place of the ASCII one, is not DBML (what int() or a Unicode-aware regex would take for the same thing)
+        digits = {d: [chr(0x0660 + int(d)), chr(0xFF10 + int(d)), chr(0x0966 + int(d))] for d in '0123456789'}
+        wide = {'[': '\uff3b', ']': '\uff3d', '{': '\uff5b', '}': '\uff5d', ':': '\uff1a', ',': '\uff0c', '>': '\uff1e', '<': '\uff1c',
+                '-': '\u2212', '(': '\uff08', ')': '\uff09'}
+        c = toks_where(lambda l, t: (t.cls == 'num' and any(ch.isdigit() for ch in t.text)) or (t.cls == 'punct' and t.text in wide))
+        nums = [(i, j) for i, j in c if lines[i].toks[j].cls == 'num']
+        if nums and draw(st.booleans()):
+            c = nums
+        if not c:
+            return None
+        i, j = draw(st.sampled_from(c))
+        tok = lines[i].toks[j]
+        if tok.cls == 'num':
+            pos = [k for k, ch in enumerate(tok.text) if ch in digits]
+            k = draw(st.sampled_from(pos))
+            tok.text = tok.text[:k] + draw(st.sampled_from(digits[tok.text[k]])) + tok.text[k + 1:]
+        else:
+            tok.text = wide[tok.text]
     elif kind == 'empty_block':
         # an Enum needs at least one item, an indexes block at least one index
         opens = [i for i in real if lines[i].kind in ('enum_open', 'indexes_open')]
